@@ -12,7 +12,10 @@ use std::sync::atomic::{AtomicBool, AtomicU64, Ordering};
 use std::sync::Mutex;
 use std::time::Instant;
 
-pub const VERIF_DIR: &str = "/verif";
+/// root of the verification tree: $VERIF_DIR (set by ./check to its own directory), default /verif
+pub fn verif_dir() -> String {
+    std::env::var("VERIF_DIR").ok().filter(|s| !s.is_empty()).unwrap_or_else(|| "/verif".to_string())
+}
 pub const NSHARDS: usize = 16;
 pub const WORKER_STACK: usize = 256 << 20;
 const DISTINCT_CAP: usize = 6_000_000;
@@ -293,7 +296,7 @@ pub fn env_seed() -> u64 {
 }
 
 pub fn load_known(prop: &str) -> Vec<KnownFinding> {
-    let path = format!("{}/known_findings.json", VERIF_DIR);
+    let path = format!("{}/known_findings.json", verif_dir());
     let Ok(txt) = std::fs::read_to_string(&path) else {
         return vec![];
     };
@@ -365,7 +368,7 @@ impl Ctx {
             "tier": self.tier.name(),
         });
         let h = hash_str(&format!("{}{}{}", stream, fail.sig, case));
-        let dir = format!("{}/replays", VERIF_DIR);
+        let dir = format!("{}/replays", verif_dir());
         let _ = std::fs::create_dir_all(&dir);
         let path = format!("{}/{}-{}-{:012x}.json", dir, self.prop, stream, h & 0xffff_ffff_ffff);
         if let Err(e) = std::fs::write(&path, serde_json::to_string_pretty(&body).unwrap()) {
@@ -829,7 +832,7 @@ impl Ctx {
             "wall_s": wall,
             "violations": self.violations.len(),
         });
-        let dir = format!("{}/evidence", VERIF_DIR);
+        let dir = format!("{}/evidence", verif_dir());
         let _ = std::fs::create_dir_all(&dir);
         let path = format!("{}/{}.json", dir, self.prop);
         if let Err(e) = std::fs::write(&path, serde_json::to_string_pretty(&ev).unwrap()) {
